@@ -80,7 +80,7 @@ def main():
     obs = []
     infos = []
     skipped = []
-    with concurrent.futures.ThreadPoolExecutor(max_workers=min(8, len(cfgs))) as ex:
+    with concurrent.futures.ThreadPoolExecutor(max_workers=max(1, min(8, len(cfgs)))) as ex:
         futs = {ex.submit(run_cfg, prop, c, a.repo): c for c in cfgs}
         for f in concurrent.futures.as_completed(futs):
             c = futs[f]
@@ -89,7 +89,7 @@ def main():
                 obs.extend(o)
                 infos.append(info)
             except extract.BuildFailed as e:
-                if c == spec["cfgs_quick"][0]:
+                if spec["cfgs_quick"] and c == spec["cfgs_quick"][0]:
                     print("INFRA: base configuration %s does not build:\n%s" % (c, e.stderr[-2000:]))
                     return 2
                 skipped.append({"cfg": c, "reason": "configuration does not build", "stderr_tail": e.stderr[-400:]})
@@ -97,7 +97,25 @@ def main():
                 print("INFRA: " + str(e))
                 return 2
     infos.sort(key=lambda i: i["cfg"])
+    winfos = []
+    if spec.get("witnesses"):
+        import witness
+        for (wname, feats, extra_deps) in spec["witnesses"]:
+            try:
+                wobs, winfo = witness.run(wname, feats, repo=a.repo, extra_deps=extra_deps, prop=prop)
+            except Exception:
+                obs.append(Ob("W", "internal-error|%s" % wname, "unverifiable", "-", traceback.format_exc()[-600:]))
+                continue
+            if winfo.get("build_failed"):
+                if not feats:
+                    print("INFRA: fn_graph does not build with default features for witness %s:\n%s" % (wname, winfo.get("stderr_tail", "")))
+                    return 2
+                skipped.append({"cfg": "witness %s %s" % (wname, feats), "reason": "configuration does not build"})
+                continue
+            obs.extend(wobs)
+            winfos.append(winfo)
     extra = {
+        "witness_crates": winfos,
         "configurations": infos,
         "bodies_analysed": sum(i["bodies"] for i in infos),
         "rule": "one obligation per rule instance (site / entry point / exit kind) found in the MIR of each configuration; "
@@ -114,7 +132,7 @@ def main():
         except Exception:
             obs.append(Ob("selftest", "internal-error", "unverifiable", "-", traceback.format_exc()[-800:]))
     return finish(prop, a.tier, seed, spec.get("level", "other"), obs, t0, spec["explanation"], spec["assumptions"], extra,
-                  spec["technique"], skipped_cfgs=skipped)
+                  spec["technique"], skipped_cfgs=skipped, checker_cmd=spec.get("checker_cmd"), trusted_base=spec.get("trusted_base"))
 
 
 if __name__ == "__main__":
